@@ -21,7 +21,7 @@ CHECKS = {
     "C06": "engine", "C07": "engine", "C08": "engine", "C09": "engine", "C13": "engine",
     "C01": "engine", "C02": "engine", "C03": "engine", "C04": "engine", "C05": "engine", "C14": "engine", "C15": "engine",
     "C41": "engine", "C16": "engine", "C36": "engine",
-    "C33": "webpush",
+    "C33": "webpush", "C32": "access",
 }
 
 MC = "model_checking"
@@ -31,6 +31,33 @@ EXP = "exploration"
 INTERP_TRUST = "Trusted: the harness-side observation (property descriptors on ast.Node flags, wrappers around PInterpreter.tick / _is_awaiting_threshold / _try_activate_node and Tracking._add_record_state, none of them in /repo), exact rational re-evaluation of clocks and conditions from the values every observer reads, virtual time. The monitor state is the implementation's flags; the clauses relate them to the program structure."
 
 CLAIMS = {
+    "C16": (MC, "TLA+ design spec TagReport.tla (StampInRange, StampMonotone, StampIsChangeTick; TLC) + monitor TagReportTrace.tla on the "
+                "tag reports built by the real EngineMessageBuilder in recorded engine runs",
+            "In the program and random families of the engine corpus a report (delta, sometimes snapshot) is taken after 1-5 ticks and "
+            "after every tick and request the changed tag values are recorded: every reported time lies between engine start and the "
+            "current tick, never decreases per tag, and is not earlier than the tick in which the monitor saw the value change.",
+            "Trusted: the time module inside the tag modules is replaced by the run's virtual clock (tags stamp time.time() in places); "
+            "a value that (dis)appears because simulation is switched keeps its time; lower-bound clause only (a value set twice to the "
+            "same value within a tick cannot be told apart).", "7 C16"),
+    "C36": (MC, "TagReport.tla (ReceiverCurrent, CleanMeansKnown; TLC) + monitor TagReportTrace.tla on the same reports",
+            "Every tag whose value (as Tag.get_value() returns it) differs from its value at the previous report is in the report with "
+            "that value, no tag twice, a snapshot carries every tag; about 40 tags x 1500 runs x 40 ticks.",
+            "Same as C16.", "7 C36"),
+    "C33": (MC, "TLA+ spec WebPush.tla (six laws of the entitlement relation, TLC over all preferences of two users, 1.0M states) + "
+                "WebPushTrace.tla recomputing WebPushDef!Recipients for every recorded publish_message call of the real publisher",
+            "427 (thorough 4027) database contents written through the real WebPushRepository (users x roles x scope x topics x unit "
+            "lists, 0-3 subscriptions per user, a unit id that is a prefix of another), 6 publishes each over all topics incl. "
+            "new-contributor: the set of subscriptions that reach the HTTP post equals the entitled set, each once, never the "
+            "contributor itself.",
+            "Trusted: _post_webpush stubbed (records the subscription id), VAPID key setup bypassed, in-memory sqlite.", "7 C33"),
+    "C32": (MC, "TLA+ spec Access.tla (laws of Allowed, TLC) + AccessTrace.tla judging recorded HTTP requests to the application wired by the "
+                "real AggregatorServer.setup_fastapi",
+            "Every route of the running application whose path names a unit or a run (29, enumerated from the app) x 3 resources "
+            "(no role, one role, two roles) x 6 user role sets, plus the three listing endpoints and the language-server data "
+            "accessors: a denied request is refused (401/403/404), reaches no engine (rpc stub), changes no aggregator state and "
+            "leaks neither tag values nor names; an allowed request is not refused; listings contain exactly the allowed resources.",
+            "Trusted: JWT validation replaced by a parser of test tokens (the role/name/id dependencies run for real), rpc stub, "
+            "fastapi.testclient. A POST endpoint without a known request body makes the check fail as machinery.", "7 C32"),
     "C02": (MC, 'monitor InterpTrace.tla (TLC) on recorded interpreter micro-events of generated programs: order / once / parent / reset clauses',
             "536+ generated programs (all bodies of <= 3 statements over Mark, UOD commands, Wait, thresholds, Block/End block, Watch, Alarm, Macro/Call macro with one level of nesting, plus 24 curated deeper ones) x input trajectories x pause/hold, cancel/force, inject, stop/restart schedules, plus the random engine corpus; every assignment to a node's started/completed flag and every run-log Started record is an event: a node starts only after its previous sibling completed (commands: was passed to the engine; conditions: registered) and its parent started, never twice per invocation, its state is reset only inside alarm and macro bodies, trailing blank/comment lines never complete, a UOD command is initialised once per invocation.",
             INTERP_TRUST, "7 C02"),
